@@ -260,23 +260,80 @@ def FQ.mulPos (k : Rat) : FQ → FQ
   | x => x
 def unscale (kx ky : Rat) (c : FV × FV) : FV × FV := (c.1.mulPos kx, c.2.mulPos ky)
 
-/-- `Polygon.Centroid` -/
-def polygonCentroid (p : Poly) : Except Fault (FV × FV) :=
+/-- `Polygon.Centroid` below its first guard (the local origin): the range guard + the loops -/
+def polygonCentroidScaled (p : Poly) : Except Fault (FV × FV) :=
   match centScale p with
   | some (kx, ky) => (polygonCentroidCore (scalePoly kx ky p)).map (unscale kx ky)
   | none => polygonCentroidCore p
 
-/-- `op.Centroid` on a Polygon -/
-def opCentroid (p : Poly) : FV × FV :=
+/-- `op.Centroid` on a Polygon below its first guard -/
+def opCentroidScaled (p : Poly) : FV × FV :=
   match centScale p with
   | some (kx, ky) => unscale kx ky (opCentroidCore (scalePoly kx ky p))
   | none => opCentroidCore p
 
-/-- `MultiPolygon.Centroid` -/
-def multiPolygonCentroid (mp : MPoly) : FV × FV :=
+/-- `MultiPolygon.Centroid` below its first guard -/
+def multiPolygonCentroidScaled (mp : MPoly) : FV × FV :=
   match centScale mp.flatten with
   | some (kx, ky) => unscale kx ky (multiPolygonCentroidCore (mp.map (scalePoly kx ky)))
   | none => multiPolygonCentroidCore mp
+
+/-! ## local origin of the centroids (fix "centroids form their moment sums relative to the first vertex")
+
+`Polygon.Centroid`, `MultiPolygon.Centroid` and `op.Centroid` begin with
+`if ox, oy := centroidOrigin(p); ox != 0 || oy != 0 { c := p.translated(ox, oy).Centroid(); return Point{c.X + ox, c.Y + oy} }`:
+the centroid of a copy translated so that the first vertex of the first ring is the origin is calculated
+by the code below (`…Scaled`: range guard, then the loops) and the vertex is added back.  (Over `Rat` every
+coordinate is finite: `centroidAxisOrigin` is the identity.) -/
+
+/-- `centroidOrigin(p)`: the first vertex of the first ring, `(0, 0)` when there is none -/
+def firstVertex (rings : Poly) : Rat × Rat :=
+  match rings with
+  | (v :: _) :: _ => (v.x, v.y)
+  | _ => (0, 0)
+
+/-- `centroidOrigin(mp...)`: the first vertex of the first ring of the FIRST polygon -/
+def firstVertexM (mp : MPoly) : Rat × Rat :=
+  match mp with
+  | p :: _ => firstVertex p
+  | [] => (0, 0)
+
+/-- `centroidOrigin(p)` and the test `ox != 0 || oy != 0`: `none` stands for "no translation" -/
+def centOrigin (rings : Poly) : Option (Rat × Rat) :=
+  let o := firstVertex rings
+  if o.1 ≠ 0 ∨ o.2 ≠ 0 then some o else none
+
+def centOriginM (mp : MPoly) : Option (Rat × Rat) :=
+  let o := firstVertexM mp
+  if o.1 ≠ 0 ∨ o.2 ≠ 0 then some o else none
+
+/-- `Polygon.translated(ox, oy)` -/
+def translateRing (ox oy : Rat) (r : Ring) : Ring := r.map fun v => ⟨v.x - ox, v.y - oy⟩
+def translatePoly (ox oy : Rat) (p : Poly) : Poly := p.map (translateRing ox oy)
+
+/-- `c.X + ox` for a finite `ox`: infinities and NaN stay what they are -/
+def FQ.addFin (t : Rat) : FQ → FQ
+  | .fin q => .fin (q + t)
+  | x => x
+def unshift (ox oy : Rat) (c : FV × FV) : FV × FV := (c.1.addFin ox, c.2.addFin oy)
+
+/-- `Polygon.Centroid` -/
+def polygonCentroid (p : Poly) : Except Fault (FV × FV) :=
+  match centOrigin p with
+  | some (ox, oy) => (polygonCentroidScaled (translatePoly ox oy p)).map (unshift ox oy)
+  | none => polygonCentroidScaled p
+
+/-- `op.Centroid` on a Polygon -/
+def opCentroid (p : Poly) : FV × FV :=
+  match centOrigin p with
+  | some (ox, oy) => unshift ox oy (opCentroidScaled (translatePoly ox oy p))
+  | none => opCentroidScaled p
+
+/-- `MultiPolygon.Centroid` -/
+def multiPolygonCentroid (mp : MPoly) : FV × FV :=
+  match centOriginM mp with
+  | some (ox, oy) => unshift ox oy (multiPolygonCentroidScaled (mp.map (translatePoly ox oy)))
+  | none => multiPolygonCentroidScaled mp
 
 /-! ## bounds.go (read only) -/
 def boundsArea (mn mx : P) : Rat := (mx.x - mn.x) * (mx.y - mn.y)
